@@ -331,7 +331,12 @@ class GridSpec:
         pi = math.pi
         tsz = pi * R * (2 ** (1 - zoom))  # in meters
         x, y = -pi * R, pi * R  # top-left corner of tile 0,0
-        tile0 = geom.box(x, y - tsz, x + tsz, y, "epsg:3857")
-        shape = (npix, npix)
-
-        return GridSpec.from_sample_tile(tile0, shape=shape, idx=(0, 0), flipy=True)
+        # not going via `from_sample_tile`: recovering tile size as `(x + tsz) - x`
+        # looses precision, error then grows with the tile index
+        return GridSpec(
+            "epsg:3857",
+            (npix, npix),
+            resolution=resyx_(-tsz / npix, tsz / npix),
+            origin=xy_(x, y - tsz),
+            flipy=True,
+        )
